@@ -16,4 +16,14 @@ open AL.Spec.X86
     mov/lea/paddb/vaddpd, NASM and STRICT SIB handling -/
 theorem c02_sweep : sweep [14, 2] (famC02 0) = true := by native_decide
 
+/-- the instances of the quick family that the two SIB options can touch: no base register, or the stack pointer as index -/
+def sibSensitive (it : Item) : Bool :=
+  it.want.ops.any fun o => match o with
+    | .mem m => m.base.isNone || m.index == some 4
+    | _ => false
+
+/-- **C02, the mixed SIB settings**: swap NASM with no-base STRICT (6) and swap STRICT with no-base NASM (10) on every instance
+    either option can touch -/
+theorem c02_sweep_mixed : sweep [6, 10] ((famC02 0).filter sibSensitive) = true := by native_decide
+
 end AL.Properties.Sweep
